@@ -88,7 +88,8 @@ def program_strategy(draw, max_ops=30, removal_heavy=False):
         (1, st.fixed_dictionaries({"op": st.just("group"), "name": st.sampled_from(["G0", "G0", "H"])})),
         (2, st.just({"op": "plain"})),
         (2, st.fixed_dictionaries({"op": st.just("plain_remove"), "who": idx})),
-        (3, st.fixed_dictionaries({"op": st.just("reopen"), "same": st.sampled_from([False, True])})),
+        (3, st.fixed_dictionaries({"op": st.just("reopen"), "same": st.sampled_from([False, True]),
+                                   "lazy": st.sampled_from([False, False, True])})),
     ]
     if removal_heavy:  # C05: removals of data / holes / tables and refused removals of protected location data
         weighted += [
@@ -111,6 +112,11 @@ def program_strategy(draw, max_ops=30, removal_heavy=False):
             ops += [first, second]
     for _ in range(n_ops):
         ops.append(draw(draw(st.sampled_from(pool))))
+        if ops[-1]["op"] == "reopen" and ops[-1]["lazy"] and draw(st.booleans()):
+            # constructive: an ordinary object is removed in a session that has not loaded the drillhole data yet
+            ops.insert(len(ops) - 1, {"op": "plain"})
+            ops[-1] = {**ops[-1], "same": draw(st.sampled_from([True, True, False]))}
+            ops.append({"op": "plain_remove", "who": draw(idx)})
     return {"ops": ops, "version": draw(st.sampled_from([2.0, 2.1, 2.1])),
             "allow_known": draw(st.integers(0, 9)) == 0, "check_every": draw(st.booleans())}
 
@@ -163,6 +169,7 @@ class ConcatRun:
         self.paths: list = []
         self.wss: list = []
         self.stopped = False
+        self.lazy = False
         self.step = -1
         self.stats = {"ops": 0, "shared_name_mutation": False, "reopens": 0, "kinds": set()}
 
@@ -224,7 +231,11 @@ class ConcatRun:
                 if done:
                     self.stats["ops"] += 1
                     self.stats["kinds"].add(op["op"])
-                    if self.p.get("check_every") and op["op"] != "reopen":
+                    if op["op"] in ("plain_remove", "reopen") and not (op["op"] == "reopen" and op.get("lazy")):
+                        if self.lazy and op["op"] == "plain_remove":
+                            self.res.label("plain-removed-before-anything-was-loaded")
+                        self.lazy = False
+                    if self.p.get("check_every") and op["op"] != "reopen" and not self.lazy:
                         self.check_live(op["op"])
             if not self.stopped:
                 self.step = len(self.p["ops"])
@@ -680,7 +691,7 @@ class ConcatRun:
         return out if len(out) == len(members) else members
 
     def op_reopen(self, op):
-        self.do_reopen(final=False, same=bool(op.get("same")))
+        self.do_reopen(final=False, same=bool(op.get("same")), lazy=bool(op.get("lazy")))
         return True
 
     # ---------------------------------------------------------------- checks
@@ -907,7 +918,7 @@ class ConcatRun:
                 self.fail("raw-object-ids", opkind, "DrillholeGroup", "", f"Concatenated object IDs {holes_ds} expected {sorted(live_holes)}")
                 return
 
-    def do_reopen(self, final, same=False):
+    def do_reopen(self, final, same=False, lazy=False):
         from geoh5py.workspace import Workspace
 
         self.stats["reopens"] += 1
@@ -928,6 +939,12 @@ class ConcatRun:
                 self.res.label("reopen:same-object")
             else:
                 self.wss[world] = Workspace(self.paths[world])
+        if lazy and not final:
+            # nothing is read in the new session until an ordinary object was removed (or the next re-open): what the
+            # session has not loaded must survive the purges that such a removal triggers
+            self.lazy = True
+            self.res.label("reopen:lazy")
+            return
         self.check_live("reopen", where="reopened")
 
 
